@@ -248,6 +248,9 @@ def _helper_total(repo: Repo, name: str) -> bool:
                     guarded = True
                 if isinstance(a, ast.IfExp) and "node_dict" in norm(a.test):
                     guarded = True
+                if isinstance(a, (ast.ListComp, ast.SetComp, ast.GeneratorExp, ast.DictComp)) and any(
+                        "node_dict" in norm(t) and norm(n.slice) in norm(t) for g in a.generators for t in g.ifs):
+                    guarded = True
             if not guarded:
                 return False
     return True
@@ -261,6 +264,75 @@ def _anc(n):
 
 
 ALWAYS = {"Input", "Output"}  # appended for every register by CircuitDAG._add_register
+
+
+def rule_wire_walk(ctx: Ctx) -> None:
+    """wire.follow-edge: reg_gate_history walks one register's wire from `<reg>_in` to `<reg>_out`.  The next gate on a wire is the head of the
+    out-edge that *carries that register* (edge data reg / reg_type, or the edge key): two consecutive gates may be joined by several
+    edges, and a two-qubit gate has successors on both of its wires, so "a successor that acts on the register" can be a later gate
+    reached through the other wire — the gates in between are skipped and every emitter-depth metric comes out too small."""
+    repo = ctx.repo
+    m = repo.module(DAG)
+    fn = repo.anchor(DAG, "CircuitDAG.reg_gate_history")
+    ctx.touch(m, fn)
+    loops_ = [w for w in ast.walk(fn) if isinstance(w, ast.While)]
+    if len(loops_) != 1:
+        raise AnalysisError("reg_gate_history: the wire walk was not found")
+    w = loops_[0]
+    node_level = [c for c in calls_in(w) if call_attr(c) in ("successors", "neighbors", "predecessors", "adj", "descendants")]
+    if node_level:
+        ctx.fail("wire.follow-edge", m, node_level[0],
+                 f"reg_gate_history picks the next gate among `{short(node_level[0])}` by looking at the operations: a two-qubit gate also has a successor on its "
+                 f"other wire, which may be a later gate of this register, so gates in between are skipped; the next gate is the head of the out-edge whose "
+                 f"reg / reg_type is this register", func="CircuitDAG.reg_gate_history", construct="reg_gate_history: next gate chosen among successors")
+        return
+    edges_ = [c for c in calls_in(w) if call_attr(c) in ("out_edges", "edge_from_reg")]
+    if not edges_:
+        raise AnalysisError("reg_gate_history: no out_edges query in the walk")
+    ps = func_params(fn)
+    regp, typ = ps[1], ps[2]
+    txt = " ".join(norm(t) for g in [x for x in ast.walk(w) if isinstance(x, ast.comprehension)] for t in g.ifs) + " " + \
+        " ".join(norm(i.test) for i in ast.walk(w) if isinstance(i, ast.If)) + " " + " ".join(norm(c) for c in edges_ if call_attr(c) == "edge_from_reg")
+    both = (regp in txt and typ in txt)
+    if both:
+        ctx.ok("wire.follow-edge", m, edges_[0], what="next gate = head of the out-edge carrying (reg, reg_type)")
+    else:
+        ctx.fail("wire.follow-edge", m, edges_[0], f"reg_gate_history selects the out-edge without comparing both `{regp}` and `{typ}` of the edge: e0 and p0 share the "
+                 f"index 0, so the walk can continue on the other wire of a two-qubit gate", func="CircuitDAG.reg_gate_history",
+                 construct="reg_gate_history: edge selected without (reg, reg_type)")
+
+
+def rule_label_intersection(ctx: Ctx) -> None:
+    """label.all-of: get_node_by_labels(labels) returns the nodes filed under *every* label: each requested label contributes its node
+    list, a label nobody is filed under contributes the empty list (so the result is empty).  Filtering the labels themselves
+    (`for label in labels if label in self.node_dict`) drops the absent ones from the intersection — ["Emitter-Emitter", "CNOT"] on a
+    circuit without any CNOT then returns every emitter-emitter node, and the CNOT count reports the CZ gates."""
+    repo = ctx.repo
+    m = repo.module(DAG)
+    fn = repo.anchor(DAG, "CircuitDAG.get_node_by_labels")
+    ctx.touch(m, fn)
+    lp = func_params(fn)[1]
+    iters = [l for l in ast.walk(fn) if isinstance(l, ast.For) and norm(l.iter) == lp] + \
+            [g for c in ast.walk(fn) if isinstance(c, (ast.ListComp, ast.SetComp, ast.GeneratorExp)) for g in c.generators if norm(g.iter) == lp]
+    if not iters:
+        raise AnalysisError("get_node_by_labels: no iteration over the requested labels")
+    for it in iters:
+        filt = it.ifs if isinstance(it, ast.comprehension) else []
+        skip = [] if isinstance(it, ast.comprehension) else [x for x in ast.walk(it) if isinstance(x, (ast.Continue, ast.Break))]
+        if filt or skip:
+            site = filt[0] if filt else skip[0]
+            ctx.fail("label.all-of", m, site,
+                     f"get_node_by_labels leaves requested labels out of the intersection (`{short(site)}`): a label no node is filed under must make the "
+                     f"result empty, not be ignored — otherwise [\"Emitter-Emitter\", \"CNOT\"] on a circuit without CNOTs returns all emitter-emitter gates",
+                     func="CircuitDAG.get_node_by_labels", construct="get_node_by_labels: absent labels ignored")
+            return
+    inter = any(isinstance(c, ast.Call) and call_attr(c) in ("intersection", "intersection_update") for c in ast.walk(fn)) or \
+        any(isinstance(b, (ast.BinOp, ast.AugAssign)) and isinstance(b.op, ast.BitAnd) for b in ast.walk(fn))
+    if inter:
+        ctx.ok("label.all-of", m, iters[0], what="intersection over every requested label (absent label = empty)")
+    else:
+        ctx.fail("label.all-of", m, fn, "get_node_by_labels does not intersect the node lists of the requested labels", func="CircuitDAG.get_node_by_labels",
+                 construct="get_node_by_labels: no intersection")
 
 
 def rule_guarded_lookup(ctx: Ctx) -> None:
@@ -452,6 +524,8 @@ def run(ctx: Ctx) -> None:
     rule_definite_attr(ctx)
     rule_labels(ctx)
     rule_guarded_lookup(ctx)
+    rule_label_intersection(ctx)
+    rule_wire_walk(ctx)
     rule_metric_copies(ctx)
     shapes.rule_metric_source(ctx)
     shapes.rule_reset_points(ctx)
@@ -482,6 +556,9 @@ def _bfs_depth(src: str) -> str:
 
 
 KNOCKOUTS = [
+    Knockout("gate-history-through-successors", DAG, sub_once('            next_node = [\n                edge[1]\n                for edge in self.dag.out_edges(next_node, data=True)\n                if edge[2]["reg"] == reg and edge[2]["reg_type"] == reg_type\n            ][0]\n', '            next_node = next(n_ for n_ in self.dag.successors(next_node) if (reg, reg_type) in zip(self.dag.nodes[n_]["op"].q_registers, self.dag.nodes[n_]["op"].q_registers_type))\n'), "wire.follow-edge", "successors"),
+    Knockout("gate-history-ignores-register-type", DAG, sub_once('                if edge[2]["reg"] == reg and edge[2]["reg_type"] == reg_type\n            ][0]', '                if edge[2]["reg"] == reg\n            ][0]'), "wire.follow-edge", "without (reg, reg_type)"),
+    Knockout("label-query-ignores-absent-labels", DAG, sub_once("        remaining_nodes = set(self.dag.nodes)\n        for label in labels:\n            remaining_nodes = remaining_nodes.intersection(\n                set(self.node_dict.get(label, []))\n            )\n        return list(remaining_nodes)\n", "        node_lists = [self.node_dict[label] for label in labels if label in self.node_dict]\n        if not node_lists:\n            return []\n        return list(set(node_lists[0]).intersection(*node_lists[1:]))\n"), "label.all-of", "absent labels ignored"),
     Knockout("reset-points-classical-cnot", METRICS, sub_nth('                    "MeasurementCNOTandReset",\n', '                    "MeasurementCNOTandReset",\n                    "ClassicalCNOT",\n', 0), "metric.reset-points", "reset points"),
     Knockout("depth-breadth-first", "graphiq/circuit/circuit_dag.py", _bfs_depth, "depth.longest", "breadth-first"),
     Knockout("emit-depth-history-from-original", METRICS, sub_once("            e_depth[e_i] = len(c.reg_gate_history(reg=e_i)[1]) - 2", "            e_depth[e_i] = len(circuit.reg_gate_history(reg=e_i)[1]) - 2"), "metric.receiver", "un-flattened circuit"),
